@@ -807,6 +807,18 @@ package sam
 //@     invariant len(written(os.Stdout)) == ite(omitRef, 2, 4) * counter
 //@     decreases len(recv(cPair)) - counter
 //@   ensures [c19.reported] implies(p == "stdout" && failed(os.Stdout), len(sent(cErr)) >= 1)
+//@   # C19, one-file-per-query branch: the files are opened by the function itself and are not modelled writers (their
+//@   # results are arbitrary), but every Create / WriteString whose error is non-nil is followed by a send on cErr: the
+//@   # number of errors sent is the number of failed calls (ghost count advanced from each call's own error value)
+//@   ghost gFileFail int = 0
+//@   after call:Create#1: do if err != nil { gFileFail++ }
+//@   after call:WriteString#1: do if err != nil { gFileFail++ }
+//@   after call:WriteString#2: do if err != nil { gFileFail++ }
+//@   after call:WriteString#3: do if err != nil { gFileFail++ }
+//@   after call:WriteString#4: do if err != nil { gFileFail++ }
+//@   loop 3:
+//@     invariant p != "stdout" && gFileFail >= 0 && len(sent(cErr)) == gFileFail && len(sent(cWriteDone)) == 0
+//@   ensures [c19.file.reported] implies(p != "stdout", len(sent(cErr)) == gFileFail)
 //@   after call:Fprintln#2: assert [c12.order] AP == recv(cPair)[posOf(counter)] && AP.idx == counter && written(os.Stdout)[len(written(os.Stdout)) - 1] == ">" + AP.queryname + "\n"
 //@   after call:Fprintln#1: assert [c12.refrecord] written(os.Stdout)[len(written(os.Stdout)) - 1] == ">" + AP.refname + "\n"
 //@   before send#5: assert [c12.all] implies(p == "stdout", gDone == len(recv(cPair)) && len(written(os.Stdout)) == ite(omitRef, 2, 4) * len(recv(cPair)))
